@@ -13,10 +13,11 @@ Model of the commitment checks of C29, as coded (core Lean only):
  * data/bookkeeping/block.go          `PaysetCommit`, `paysetCommit`, `paysetCommitSHA256/512` (root copied into a zeroed
                                        fixed-size array), `ContentsMatchHeader`, the first four checks of `BlockHeader.PreCheck`
 
-Parameters (function arguments, never axioms): the three hash functions, the canonical msgpack encoders of Transaction /
+Parameters (plain function arguments): the three hash functions, the canonical msgpack encoders of Transaction /
 TxGroup / SignedTxnInBlock / Payset / BlockHeader, `BlockHeader.DecodeSignedTxn` for the block's header (`none` = error), and
 `txOk` / `later` for the parts of the evaluator / PreCheck that are not about commitments.  The Merkle trees are
-`Model.MerkleArray.build / buildVC` (C37).  A concrete msgpack `TxGroup` encoder (`msgpackGroup`) is given for the driver.
+`Model.MerkleArray.build / buildVC` (C37; `Build` does not depend on the Verify-side facts `fixedOff` / `checkDepth` /
+`checkHash` when digests have the hash's size, so the configurations fix them to the repaired values).  A concrete msgpack `TxGroup` encoder (`msgpackGroup`) is given for the driver.
 
 Not modelled: the `WellFormed` pre-pass and everything `eval.transaction` does besides failing or not (`txOk`), fee checks after
 the group check, the remaining checks of PreCheck (`later`), `logging`.
